@@ -2,15 +2,18 @@
   Model/EnvConc — concurrent callers on one environment (C01, "one at a time").
 
   TryTransition and TeardownEnvironment take the environment's transitionMutex for their
-  whole duration (go/ast fact Gen.smEventSites / Gen.stateWriteSites, see Props/C01.lean),
+  whole duration (go/ast facts Gen.smEventSites / Gen.stateWriteSites, see Props/C01.lean),
   so what a caller does is a sequence of PIECES, each executed atomically with respect to
   the other callers' pieces:
+    * look-up           : unlocked; `environments.Environment(id)` (RpcServer.ControlEnvironment,
+                          first lines of TeardownEnvironment) — made when the caller arrives
     * try_ e            : one locked piece
     * teardown          : one locked piece
     * control e (API)   : locked piece (the request); if it failed, a second locked piece
                           (GO_ERROR); if that failed too, an UNLOCKED write of ERROR.
   A schedule says which caller moves next. A caller that wants a locked piece can only move
-  when nobody holds the mutex; it then holds it until its `leave` move.
+  when nobody holds the mutex; it then holds it until its `leave` move. A move that is not
+  enabled leaves the system unchanged, so every `List Nat` is a schedule.
 -/
 import ControlModel.Model.Env
 
@@ -24,6 +27,7 @@ inductive Piece where
 
 /-- where a caller is in its program -/
 inductive Pc where
+  | arrive                       -- about to look the environment up
   | start                        -- about to take the mutex for its request
   | holding (next : Option Piece) -- inside the mutex; `next` = what follows after release
   | between (next : Piece)       -- released, next piece pending
@@ -32,8 +36,14 @@ inductive Pc where
 
 structure Caller where
   req : Req
-  pc : Pc := .start
+  pc : Pc := .arrive
+  listed : Bool := true          -- what the look-up saw
   deriving Repr, Inhabited
+
+def Caller.isHolding (c : Caller) : Bool :=
+  match c.pc with
+  | .holding _ => true
+  | _ => false
 
 structure LogEntry where
   caller : Nat
@@ -49,16 +59,15 @@ structure Sys where
   log : List LogEntry := []      -- newest last
   deriving Repr, Inhabited
 
-def holders (s : Sys) : List Nat :=
-  (s.callers.zipIdx.filter fun (c, _) => match c.pc with | .holding _ => true | _ => false).map (·.2)
+/-- nobody is inside the mutex -/
+def Sys.free (s : Sys) : Bool := s.callers.all (fun c => !c.isHolding)
 
-/-- what the request's own locked piece is and does (the API glue's first half for `control`) -/
-def runLocked (hooks : List Hook) (n : Nat) (env : Env) : Req → Env × Result
+/-- What the request's own locked piece does to the environment it finds (the API glue's first
+    half for `control`); `listed` = what the caller's look-up saw. -/
+def runLocked (hooks : List Hook) (n : Nat) (listed : Bool) (env : Env) : Req → Env × Result
   | .try_ e b r => let x := tryTransition env hooks e b r; (x.1, x.2.2)
-  | .control e b r => if env.gone then (env, .notFound) else let x := tryTransition env hooks e b r; (x.1, x.2.2)
-  | .teardown f r1 r2 => if env.gone then (env, .notFound) else let x := teardown env hooks f r1 r2 n; (x.1, x.2.2)
-
-def setCaller (cs : List Caller) (i : Nat) (c : Caller) : List Caller := cs.set i c
+  | .control e b r => if !listed then (env, .notFound) else let x := tryTransition env hooks e b r; (x.1, x.2.2)
+  | .teardown f r1 r2 => if !listed then (env, .notFound) else let x := teardown env hooks f r1 r2 n; (x.1, x.2.2)
 
 /-- One move of caller `i`. A move that is not enabled leaves the system unchanged. -/
 def move (hooks : List Hook) (n : Nat) (s : Sys) (i : Nat) : Sys :=
@@ -66,29 +75,31 @@ def move (hooks : List Hook) (n : Nat) (s : Sys) (i : Nat) : Sys :=
   | none => s
   | some c =>
     match c.pc with
+    | .arrive =>
+      { s with callers := s.callers.set i { c with pc := .start, listed := !s.env.gone } }
     | .start =>
-      if (holders s).isEmpty then
-        let r := runLocked hooks n s.env c.req
+      if s.free then
+        let r := runLocked hooks n c.listed s.env c.req
         let next : Option Piece :=
           match c.req with
           | .control .. => if r.2.isOk || r.2 == .notFound then none else some .goError
           | _ => none
-        { env := r.1, callers := setCaller s.callers i { c with pc := .holding next },
+        { env := r.1, callers := s.callers.set i { c with pc := .holding next },
           log := s.log ++ [{ caller := i, piece := .locked c.req, before := s.env, after := r.1, result := r.2 }] }
       else s
     | .holding next =>
       -- release the mutex
-      { s with callers := setCaller s.callers i { c with pc := match next with | none => .done | some p => .between p } }
+      { s with callers := s.callers.set i { c with pc := match next with | none => .done | some p => .between p } }
     | .between .goError =>
-      if (holders s).isEmpty then
+      if s.free then
         let x := tryTransition s.env hooks .GO_ERROR true false
-        { env := x.1, callers := setCaller s.callers i { c with pc := .holding (if x.2.2.isOk then none else some .force) },
+        { env := x.1, callers := s.callers.set i { c with pc := .holding (if x.2.2.isOk then none else some .force) },
           log := s.log ++ [{ caller := i, piece := .goError, before := s.env, after := x.1, result := x.2.2 }] }
       else s
     | .between .force =>
       -- NOT under the mutex: allowed even while another caller holds it
       let env' := { s.env with st := .ERROR }
-      { env := env', callers := setCaller s.callers i { c with pc := .done },
+      { env := env', callers := s.callers.set i { c with pc := .done },
         log := s.log ++ [{ caller := i, piece := .force, before := s.env, after := env', result := .ok }] }
     | .between (.locked _) => s
     | .done => s
@@ -97,5 +108,22 @@ def runSched (hooks : List Hook) (n : Nat) (s : Sys) (sched : List Nat) : Sys :=
   sched.foldl (move hooks n) s
 
 def initSys (env : Env) (reqs : List Req) : Sys := { env := env, callers := reqs.map fun q => { req := q } }
+
+/-- "each one seeing the state left by the previous one": the log is a chain from `e0`. -/
+def chained (e0 : Env) : List LogEntry → Prop
+  | [] => True
+  | x :: xs => x.before = e0 ∧ chained x.after xs
+
+/-- the environment after the last logged piece -/
+def lastEnv (e0 : Env) : List LogEntry → Env
+  | [] => e0
+  | x :: xs => lastEnv x.after xs
+
+/-- what a logged piece did is what that piece does, run on its own on the state it found -/
+def LogEntry.faithful (hooks : List Hook) (n : Nat) (x : LogEntry) : Prop :=
+  match x.piece with
+  | .locked q => ∃ listed, (x.after, x.result) = runLocked hooks n listed x.before q
+  | .goError => (x.after, x.result) = ((tryTransition x.before hooks .GO_ERROR true false).1, (tryTransition x.before hooks .GO_ERROR true false).2.2)
+  | .force => x.after = { x.before with st := .ERROR }
 
 end EnvM
